@@ -234,6 +234,8 @@ def run(ctx):
     for o in ctx.own_of("c04"):
         if o["rule"] == "R04.1" and "hide-dominates-queueing" in o["key"]:
             ctx._add(o["status"], "R05.8", o["key"].split("|", 1)[1], o["desc"] + " [a mark that lands after its Delete ran hides a newer incarnation for good, weight charged]", o["where"], o["detail"])
+    from core import no_try_locks
+    no_try_locks(ctx, "R05.9", {"WU", "KW"}, "a charge or release that is skipped leaves the total different from the sum of the held keys")
     # R05.6 release of an id and by-key removal of its entry are atomic w.r.t. admission (shared with C10 R10.5 / C03 R03.4)
     import c10
     c10.id_guard(ctx, M, "R05.6")
